@@ -58,6 +58,26 @@ def _plan(draw, max_rows):
         fp = draw(gen.frame_plan(kinds=["i", "f", "d", "td", "t", "i8", "oi"], max_rows=max_rows, max_cols=3, min_cols=1,
                                  prefix="c", mode="twins"))
         name = draw(st.sampled_from(["unique", "unique", "unique", "drop_na", "filter_kv"]))
+    elif special == 4 and draw(st.booleans()):
+        # a wide frame: 64 to 90 key columns with two or three values each, rows that differ in a few (often only
+        # the leading) columns; the number of possible key combinations is far beyond 2**64
+        n = draw(st.integers(2, 8))
+        width = draw(st.integers(64, 90))
+        base = [[draw(st.integers(0, 2)) for _ in range(width)] for _ in range(draw(st.integers(1, 3)))]
+        rows = []
+        for _ in range(n):
+            r = list(draw(st.sampled_from(base)))
+            for j in draw(st.lists(st.integers(0, min(9, width - 1)), max_size=2)):
+                r[j] = draw(st.integers(0, 2))
+            rows.append(r)
+        kinds = draw(st.sampled_from([["i"], ["i8"], ["i", "f", "i8"], ["s"]]))
+        cols = []
+        for j in range(width):
+            kind = kinds[j % len(kinds)]
+            conv = {"i": int, "i8": int, "f": float, "s": lambda x: "abc"[x]}[kind]
+            cols.append({"name": f"c{j}", "kind": kind, "vals": [conv(r[j]) for r in rows]})
+        fp = {"n": n, "cols": cols}
+        name = "unique"
     elif special in (1, 2):
         # several key columns that can hold missing values, tight pools: rows that differ only in *where* the
         # missing value sits (and in 0 / epoch vs missing) are the norm here
@@ -140,6 +160,8 @@ def _plan(draw, max_rows):
         op["cols"] = [cols[j]["name"] for j in draw(st.permutations(range(len(cols))))[:k]]
         if special == 0 and draw(st.integers(0, 2)):
             op["cols"] = [c["name"] for c in cols]
+        if len(cols) >= 64:
+            op["cols"] = draw(st.sampled_from([[], [c["name"] for c in cols], [c["name"] for c in cols][::-1]]))
     draw(gen.decorate(fp))
     plan = {"frame": fp, "op": op}
     # how the receiver came to be, a module-level default, and whether the call is made twice
@@ -278,6 +300,8 @@ def check(plan, ctx):
     kinds = {c["name"]: c["kind"] for c in fp["cols"]}
     names = None
     ctx.cls("op_" + name)
+    if len(plan["frame"]["cols"]) >= 64:
+        ctx.cls("frame_of_64_or_more_columns")
 
     if name in ("filter", "filter_out"):
         m = op["mask"]
